@@ -8,6 +8,8 @@
 #include <QMutexLocker>
 #include <QObject>
 #include <QPointer>
+#include <QQueue>
+#include <QSharedPointer>
 #include <QThread>
 
 #include "handler.h"
@@ -86,7 +88,9 @@ public:
         if (!m_thread)
             return;
 
-        while (m_pendingCount.loadAcquire() > 0) {
+        // Qt delivers posted events in the logger thread only while a QCoreApplication exists;
+        // without one the backlog cannot drain there and is processed below instead
+        while (m_pendingCount.loadAcquire() > 0 && QCoreApplication::instance()) {
             locker.unlock();
             QTLOGGER_VERIF_POINT("oth.reset.drain");
             QThread::msleep(10);
@@ -105,6 +109,10 @@ public:
         QTLOGGER_VERIF_POINT("oth.reset.before_clear");
         m_thread.clear();
         m_worker = nullptr;
+
+        // Messages the logger thread did not get to (its events are discarded once the
+        // application object is gone) are delivered here, in order, before any later message
+        while (processQueued()) { }
     }
 
     bool process(LogMessage &lmsg) override
@@ -114,9 +122,13 @@ public:
         QTLOGGER_VERIF_POINT("oth.process.locked");
 
         if (m_worker) {
+            {
+                QMutexLocker queueLocker(&m_queueMutex);
+                m_queue.enqueue(QSharedPointer<LogMessage>::create(lmsg));
+            }
             m_pendingCount.fetchAndAddOrdered(1);
             QTLOGGER_VERIF_POINT("oth.process.counted");
-            QCoreApplication::postEvent(m_worker, new LogEvent(lmsg));
+            QCoreApplication::postEvent(m_worker, new LogEvent());
             QTLOGGER_VERIF_POINT("oth.process.posted");
         } else {
             BaseHandler::process(lmsg);
@@ -125,18 +137,36 @@ public:
     }
 
 private:
+    // The messages wait in a queue of the handler; the event only tells the logger thread
+    // that there is one. An event that Qt discards therefore does not lose its message.
     struct LogEvent : public QEvent
     {
-        LogEvent(const LogMessage &lmsg) : QEvent(type()), lmsg(lmsg) { }
+        LogEvent() : QEvent(type()) { }
 
         static QEvent::Type type()
         {
             static QEvent::Type _type = static_cast<QEvent::Type>(QEvent::registerEventType());
             return _type;
         }
-
-        LogMessage lmsg;
     };
+
+    // Runs the wrapped handler for the oldest queued message; false when the queue is empty
+    bool processQueued()
+    {
+        QSharedPointer<LogMessage> lmsg;
+        {
+            QMutexLocker queueLocker(&m_queueMutex);
+            if (m_queue.isEmpty())
+                return false;
+            lmsg = m_queue.dequeue();
+        }
+        QTLOGGER_VERIF_POINT("oth.worker.entry");
+        BaseHandler::process(*lmsg);
+        QTLOGGER_VERIF_POINT("oth.worker.processed");
+        m_pendingCount.fetchAndSubOrdered(1);
+        QTLOGGER_VERIF_POINT("oth.worker.decremented");
+        return true;
+    }
 
     class Worker : public QObject
     {
@@ -146,14 +176,7 @@ private:
         void customEvent(QEvent *event) override
         {
             if (event->type() == LogEvent::type()) {
-                auto logEvent = dynamic_cast<LogEvent *>(event);
-                if (logEvent) {
-                    QTLOGGER_VERIF_POINT("oth.worker.entry");
-                    m_handler->BaseHandler::process(logEvent->lmsg);
-                    QTLOGGER_VERIF_POINT("oth.worker.processed");
-                    m_handler->m_pendingCount.fetchAndSubOrdered(1);
-                    QTLOGGER_VERIF_POINT("oth.worker.decremented");
-                }
+                m_handler->processQueued();
             }
         }
 
@@ -166,6 +189,8 @@ private:
     Worker *m_worker = nullptr;
     QMutex m_mutex;
     QAtomicInt m_pendingCount;
+    QQueue<QSharedPointer<LogMessage>> m_queue;
+    QMutex m_queueMutex;
 };
 
 } // namespace QtLogger
